@@ -16,7 +16,7 @@ CHECKS = {
 CHECKS.update({
  "C01": ("exploration",
          "deterministic simulation: 3-4 real replicas fed one seeded block history (all op families), differing in node-local config, restarts, stalls/catch-up, late join from genesis and interleaved non-consensus traffic; comparator on every DeliverTx / EndBlock / Commit",
-         "Seeded search over mixed block histories executed on several independently constructed app.Haqq replicas that differ in everything the statement says must not matter (appOpts incl. tracer/pruning/min-gas-prices/max-tx-gas-wanted/inv-check-period, crash-restart points, lagging and late-joining nodes, CheckTx/Simulate/query/eth_call/export traffic, Go map order). Every tx result (code, codespace, data, gas wanted/used), validator update, consensus-param update and app hash is compared after each ABCI call; on divergence the differing stores are named.",
+         "Seeded search over mixed block histories executed on several independently constructed app.Haqq replicas that differ in everything the statement says must not matter (appOpts incl. tracer/pruning/min-gas-prices/max-tx-gas-wanted/inv-check-period, crash-restart points, lagging and late-joining nodes, CheckTx/Simulate/query/eth_call/export traffic, Go map order), including blocks in which a governance-scheduled software upgrade is applied in-process. Every tx result (code, codespace, data, gas wanted/used), validator update, consensus-param update and app hash is compared after each ABCI call; on divergence the differing stores are named.",
          "Go map iteration order cannot be seeded (divergence from it shows with probability 1-(1/2)^(R-1) per occurrence); wall-clock seam (testing/synctest) not built at this commit; CometBFT stubbed.",
          "DESIGN.md §4 C01"),
  "C15": ("exploration",
@@ -27,7 +27,7 @@ CHECKS.update({
  "C20": ("fault_enumeration",
          "deterministic simulation with crash injection: replica E is crashed and re-opened from its simulated disk at EVERY block boundary of each sampled history, replica M at seeded random points incl. mid-block (with full redelivery), replica K never stops; Info()/query-set/tx-result/app-hash comparison + no-DB-write-outside-Commit counter",
          "Crash-point enumeration inside each sampled history (every boundary) x seeded exploration of histories. After each restart the node's reported height/app hash, a fixed set of 18 gRPC queries plus per-account queries, and all following tx results, validator updates and app hashes are compared with the never-stopped replica; the simulated disk counts writes per ABCI phase to show nothing becomes durable outside Commit.",
-         "Torn writes inside rootmulti.Commit and disk errors are not injected (SDK/IAVL code outside the repo; the property quantifies over block boundaries); upgrade-plan boundaries not exercised at this commit.",
+         "Torn writes inside rootmulti.Commit and disk errors are not injected (SDK/IAVL code outside the repo; the property quantifies over block boundaries). Software-upgrade plans are applied in-process for the handlers that are safe on a state created by this binary (v1.8.2, v1.8.1, v1.7.8, v1.7.7, and v1.8.0 after funding the DAO); store upgrades read from upgrade-info.json on a real disk are not exercised.",
          "DESIGN.md §4 C20"),
 })
 
